@@ -19,6 +19,15 @@ must come back on the declaring class; a forest compiled from MOF is also
 created through CreateClass and the two resolved forests must be equal
 (``cmp_with_createclass``).
 
+Stability (``Watch``): the full view of every class is remembered as it was
+first returned after the class was created / last modified (``canon``: all
+public attributes, also the ones the model does not predict such as
+propagated and the flavors of qualifiers).  After every CreateClass /
+ModifyClass / DeleteClass / CreateInstance step of a forest build and of the
+history machine, accepted or rejected, and after every class of a forest that
+is compiled from MOF class by class, every class the step did not name must
+still have that view.
+
 Recipe forms
   qdecl:  {'name', 'type', 'is_array', 'tosub': True|False|None,
            'ovr': True|False|None, 'scopes': 'any' | [scope names],
@@ -76,7 +85,12 @@ RULE = (
     "compile_mof_string() of hand-assembled MOF, and the full GetClass view "
     "of every class is compared with a reference resolver; a forest that "
     "was compiled from MOF is created again through CreateClass and the "
-    "two resolved forests are compared (differential:forests-compared).  "
+    "two resolved forests are compared (differential:forests-compared); "
+    "every other MOF forest is compiled class by class (mof:class-by-"
+    "class).  After every step of a build and of a history the full views "
+    "of all classes the step did not name are compared with the views "
+    "first returned for them (stability:views-compared-with-first-view "
+    "counts the comparisons).  "
     "flags: all 27 "
     "LocalOnly x IncludeQualifiers x IncludeClassOrigin combinations x 5 "
     "property lists for every class.  enum: EnumerateClassNames/"
@@ -113,6 +127,14 @@ ASSUMPTIONS = [
     "neither the documentation nor the statement say whether that is an "
     "override, so the class may be accepted or rejected and the presence, "
     "value and enforcement of that qualifier below it are not compared",
+    "stability: CreateClass, ModifyClass (of a leaf), DeleteClass, "
+    "CreateInstance and MOF compilation of a class - accepted or rejected "
+    "- leave the full view of every other class as it was when first "
+    "returned, in every attribute (the statement ties the view of a class "
+    "to the class and its ancestors only; ModifyClass is generated for "
+    "leaf classes, DeleteClass removes the subtree, so no remaining class "
+    "depends on the class operated on); a rejected operation leaves the "
+    "class it names unchanged as well",
     "differential MOF/CreateClass: a class recipe means the same whether "
     "it is written as MOF text or as CIMClass object, so the full views "
     "(CIMClass equality, all attributes incl. flavors and propagated) "
@@ -349,6 +371,7 @@ class Model:
         self.classes = {}
         self.instances = []
         self._views = {}
+        self.watch = None       # Watch: first views of the classes
 
     # -- flavors
     def tosub(self, qname):
@@ -1337,6 +1360,138 @@ def get_full(conn, name):
 
 
 # ---------------------------------------------------------------------------
+# stability: an operation on one class does not change any other class
+
+def canon(klass):
+    """
+    Flat, order-free picture of everything a returned class says (all public
+    attributes of the class, its elements and their qualifiers, also those
+    the model does not predict: propagated and flavors of qualifiers):
+    {(holder, aspect): value}.  Plain data, so a cached picture cannot be
+    changed by the server afterwards.
+    """
+    out = {('class', 'identity'): (klass.classname, klass.superclass,
+                                   repr(klass.path))}
+
+    def quals(holder, qd):
+        for q in qd.values():
+            h = '%s[%s]' % (holder, lc(q.name))
+            out[(h, 'qualifier-value')] = (q.name, q.type, repr(q.value))
+            out[(h, 'qualifier-propagated')] = q.propagated
+            out[(h, 'qualifier-flavors')] = (q.tosubclass, q.overridable,
+                                             q.translatable, q.toinstance)
+
+    def typed(e):
+        return (e.name, e.type, e.is_array, e.array_size, e.reference_class,
+                e.embedded_object, repr(e.value))
+
+    quals('class', klass.qualifiers)
+    for e in klass.properties.values():
+        h = 'property %s' % lc(e.name)
+        out[(h, 'element')] = typed(e)
+        out[(h, 'class-origin')] = e.class_origin
+        out[(h, 'element-propagated')] = e.propagated
+        quals(h, e.qualifiers)
+    for e in klass.methods.values():
+        h = 'method %s' % lc(e.name)
+        out[(h, 'element')] = (e.name, e.return_type)
+        out[(h, 'class-origin')] = e.class_origin
+        out[(h, 'element-propagated')] = e.propagated
+        quals(h, e.qualifiers)
+        for x in e.parameters.values():
+            hx = '%s(%s)' % (h, lc(x.name))
+            out[(hx, 'element')] = typed(x)
+            quals(hx, x.qualifiers)
+    return out
+
+
+def canon_diff(old, new):
+    "-> (what differs first: stable label, text) of two canon() pictures"
+    gone, added = _names_diff(old, new)
+    if gone or added:
+        k = (gone + added)[0]
+        what = 'qualifier-set' if k[1].startswith('qualifier') else \
+            'element-set'
+        return what, 'no longer there: %s; new: %s' % (
+            sorted(set(h for h, _ in gone)), sorted(set(h for h, _ in added)))
+    for k in sorted(old):
+        if old[k] != new[k]:
+            return k[1], '%s: %s was %r, is now %r' % (k[0], k[1], old[k],
+                                                       new[k])
+    return None, ''
+
+
+class Watch:
+    """
+    The full view of every class as it was first returned after the class was
+    created (or last modified).  Every later full view of the class must be
+    the same, whatever happened to other classes in between: CreateClass /
+    ModifyClass / DeleteClass / CreateInstance / MOF compilation of one class
+    (accepted or rejected) do not change what the server holds for another
+    one.  Failures: '<op>:changes-other-class:<relation>:<what>' (relation of
+    the changed class to the class the operation named: superclass |
+    ancestor | subclass | unrelated | same-class (rejected operation)).
+    """
+
+    def __init__(self):
+        self.seen = {}
+
+    def forget(self, names):
+        for ln in names:
+            self.seen.pop(ln, None)
+
+    def check(self, ctx, conn, model, op, target, tsuper=None, views=None,
+              only=None):
+        """
+        op: what was just done (signature prefix); target: lower-cased name
+        of the class it named (None: none); tsuper: its superclass (lower
+        case) if the model does not hold the class (rejected creation,
+        deleted class); views: full views already fetched, {lname:
+        CIMClass}; only: the classes of the model that exist so far
+        """
+        n = 0
+        for ln, spec in model.classes.items():
+            if only is not None and ln not in only:
+                continue
+            if views is not None and ln in views:
+                klass = views[ln]
+            else:
+                klass = conn.GetClass(spec['name'], LocalOnly=False,
+                                      IncludeQualifiers=True,
+                                      IncludeClassOrigin=True)
+            c = canon(klass)
+            old = self.seen.get(ln)
+            self.seen[ln] = c       # a change is reported once
+            if old is None or old == c:
+                n += old is not None
+                continue
+            what, text = canon_diff(old, c)
+            rel = self._relation(model, ln, target, tsuper)
+            ctx.fail('%s:changes-other-class:%s:%s' % (op, rel, what),
+                     'after %s(%s) the full view of %s differs from the '
+                     'one returned when it was created: %s' %
+                     (op, target, spec['name'], text))
+        ctx.event('stability:views-compared-with-first-view', n)
+
+    @staticmethod
+    def _relation(model, ln, target, tsuper):
+        if target is None:
+            return 'unrelated'
+        if ln == target:
+            return 'same-class'
+        if target in model.classes:
+            tsuper = model.superof(target)
+            if ln in model.subtree(target):
+                return 'subclass'
+        if tsuper is not None and tsuper in model.classes:
+            if ln == tsuper:
+                return 'superclass'
+            if tsuper in model.subtree(ln):
+                return 'ancestor'
+        return 'unrelated'
+
+
+# ---------------------------------------------------------------------------
 # building a forest in a connection; expected rejections
 
 PARTIAL_SCOPE_SIG = 'create:KeyError-for-declaration-with-partial-scopes'
@@ -1514,6 +1669,7 @@ def build_forest(ctx, forest, conn=None):
     if forest['via'] == 'quiet':
         ctx = QuietCtx(ctx)
     model = Model(forest['qdecls'])
+    model.watch = Watch()
     if conn is None:
         conn = new_conn(forest['qdecls'])
     for i, spec in enumerate(forest['classes']):
@@ -1533,6 +1689,9 @@ def build_forest(ctx, forest, conn=None):
             ctx.event('skipped:superclass-was-rejected')
             continue
         create_class(ctx, conn, model, spec)
+        # accepted or rejected: the classes that exist are what they were
+        model.watch.check(ctx, conn, model, 'create', lc(spec['name']),
+                          lc(spec['super']) if spec['super'] else None)
     for cname, key in forest['instances']:
         if lc(cname) not in model.classes:
             continue
@@ -1552,11 +1711,17 @@ def variant(name, mask, i):
 # ---------------------------------------------------------------------------
 # sub-check: resolve (full view of every class equals the model)
 
-def check_views(ctx, conn, model, mask=0):
+def check_views(ctx, conn, model, mask=0, op=None, target=None, tsuper=None):
+    """
+    op, target, tsuper: the operation that was just done (see Watch.check):
+    the views are also compared with the first views of the classes
+    """
     got = {}
     for i, ln in enumerate(model.classes):
         name = variant(model.classes[ln]['name'], mask, i)
         got[ln] = get_full(conn, name)
+    if op is not None and model.watch is not None:
+        model.watch.check(ctx, conn, model, op, target, tsuper, views=got)
     for ln in model.classes:
         sup = model.superof(ln)
         cmp_full(ctx, model, ln, got[ln], got.get(sup))
@@ -1571,7 +1736,7 @@ def resolve_oracle(ctx, forest):
     except Abort:
         ctx.case(nontrivial=True, classes=('aborted',))
         return
-    check_views(ctx, conn, model, forest['mask'])
+    check_views(ctx, conn, model, forest['mask'], op='inst')
     cl, nontriv = classify(model, forest['mask'] != 0)
     ctx.case(nontrivial=nontriv, classes=cl + ['via:create'])
 
@@ -1862,6 +2027,7 @@ def do_delete(ctx, conn, model, name):
     "DeleteClass(name) of an existing class + all checks"
     ln = lc(name)
     before = snapshot(conn, model)
+    tsuper = model.superof(ln)
     conn.DeleteClass(name)
     gone = model.remove(ln)
     classes, insts = stored_state(conn)
@@ -1887,12 +2053,17 @@ def do_delete(ctx, conn, model, name):
             pass
         else:
             ctx.fail('delete:deleted-class-still-returned', k)
+    views = {}
     for k, spec in model.classes.items():
-        now = get_full(conn, spec['name'])
-        if now != before[k]:
+        now = views[k] = get_full(conn, spec['name'])
+        if now != before[k] and model.watch is None:
             ctx.fail('delete:unrelated-class-changed',
                      'DeleteClass(%r) changed %s: %r -> %r' %
                      (name, k, before[k], now))
+    if model.watch is not None:
+        model.watch.forget(gone)
+        model.watch.check(ctx, conn, model, 'delete', ln, tsuper,
+                          views=views)
     return gone
 
 
@@ -2034,10 +2205,30 @@ def mof_oracle(ctx, forest):
         model.instances.append((lc(cname), key))
     text = forest_mof(forest)
     conn = pywbem_mock.FakedWBEMConnection(default_namespace=NS)
+    model.watch = Watch()
+    # every other forest is compiled class by class (one compile_mof_string()
+    # per class) so that the classes that exist can be looked at in between
+    stepwise = forest['pick'] % 2 == 1
     try:
-        conn.compile_mof_string(text)
+        if stepwise:
+            conn.compile_mof_string(''.join(
+                mof_qdecl(d) for d in STD_QDECLS + forest['qdecls']))
+            done = []
+            for spec in forest['classes']:
+                conn.compile_mof_string(mof_class(spec))
+                done.append(lc(spec['name']))
+                model.watch.check(ctx, conn, model, 'mof', done[-1],
+                                  only=done)
+            if forest['instances']:
+                conn.compile_mof_string('\n'.join(
+                    'instance of %s { %s = "%s"; };' % (cname, KEYNAME, key)
+                    for cname, key in forest['instances']))
+        else:
+            conn.compile_mof_string(text)
     except pywbem.MOFCompileError as exc:
         cl, nontriv = classify(model)
+        if stepwise:
+            cl.append('mof:class-by-class')
         if bad is not None:
             ctx.case(nontrivial=nontriv,
                      classes=cl + ['via:mof', 'mof-rejected'])
@@ -2051,11 +2242,13 @@ def mof_oracle(ctx, forest):
     for spec, pv in bads:
         if pv['violations']:
             report_violations(ctx, conn, spec, pv['violations'], 'mof')
-    check_views(ctx, conn, model, forest['mask'])
+    check_views(ctx, conn, model, forest['mask'], op='mof-instances')
     check_class_enums(ctx, conn, model, forest['mask'], targets=[None])
     check_instance_enums(ctx, conn, model, forest['mask'], both=False)
     cmp_with_createclass(ctx, forest, conn, model)
     cl, nontriv = classify(model, forest['mask'] != 0)
+    if stepwise:
+        cl.append('mof:class-by-class')
     ctx.case(nontrivial=nontriv, classes=cl + ['via:mof'])
 
 
@@ -2087,6 +2280,7 @@ class Machine:
         self.mask = init['mask']
         self.conn = new_conn(self.qdecls)
         self.model = Model(self.qdecls)
+        self.model.watch = Watch()
 
     # -- steps
     def step_strategy(self):
@@ -2192,6 +2386,15 @@ class Machine:
         self.counter += 1
         op = step[0]
         self.events.add(op)
+        # the class the step names and its superclass (for Watch.check)
+        target = tsuper = None
+        if op in ('create', 'create-nosuper', 'create-dup', 'modify'):
+            target = lc(step[1]['name'])
+            tsuper = lc(step[1]['super']) if step[1]['super'] else None
+        elif op in ('delete', 'inst'):
+            target = lc(step[1])
+            tsuper = model.superof(target) if target in model.classes \
+                else None
         if op == 'create':
             create_class(ctx, conn, model, step[1])
         elif op in ('create-nosuper', 'create-dup'):
@@ -2211,7 +2414,9 @@ class Machine:
                 i[0] == k for i in model.instances)
             if not blocked:
                 self.events.add('modify-leaf')
-                create_class(ctx, conn, model, spec, how='modify')
+                if create_class(ctx, conn, model, spec, how='modify'):
+                    # only this class has a new view
+                    model.watch.forget([k])
             else:
                 try:
                     conn.ModifyClass(b_class(spec))
@@ -2248,7 +2453,8 @@ class Machine:
                     step[1], properties={KEYNAME: step[2]}))
                 model.instances.append((k, step[2]))
         # invariants after every step
-        check_views(ctx, conn, model, self.mask + self.counter)
+        check_views(ctx, conn, model, self.mask + self.counter,
+                    op=op.split('-')[0], target=target, tsuper=tsuper)
         check_class_enums(ctx, conn, model, self.mask + self.counter,
                           targets=[None] + list(model.classes)[-3:])
         check_instance_enums(ctx, conn, model, self.mask + self.counter,
@@ -2324,6 +2530,12 @@ SENSITIVITY = [
     "propagated:override:on, ...method-qualifier-...; found only through "
     "values that state a flavor other than the declaration's (stated "
     "flavors are still exposed unchanged, MOF and CreateClass still agree)",
+    "_resolve_class takes the superclass from the class store without copy "
+    "and _resolve_qualifiers sets propagated=True on the inherited "
+    "qualifier before copying it (seeded change 6) -> resolve/create:"
+    "changes-other-class:superclass:qualifier-propagated, resolve/mof:"
+    "changes-other-class:..., history/create:changes-other-class:..., "
+    "history/modify:changes-other-class:...",
 ]
 
 _BUDGET = (300, 3000)     # soft wall-clock stop per shard (loaded machine)
